@@ -11,7 +11,7 @@ Separate Extraction
   crypt_sample_cenc crypt_sample_cbcs
   aes128_encrypt aes128_decrypt
   senc saiz enc_sample senc_of saiz_of senc_empty saiz_empty increment_iv pad_iv saio_offset
-  sizing sample_sizes split_samples senc_calc_size senc_encode saiz_encode saio_encode senc_parse traf_senc senc_of_r
+  sizing sample_sizes split_samples senc_calc_size senc_encode saiz_encode saio_encode senc_parse traf_senc traf_senc_seig senc_of_r
   tsample trun_t tfhd_t trex_t add_sample_defaults fragment_meta trun_encode_body trun_decode_body set_data_offset
   protect_entry protect_entry_bytes unprotect_entry_bytes sinf_decode sinf_d children_of box_type box_payload be be_bytes
   Z.of_N.  (* Z.of_N only so that BinNums.coq_Z exists for ocaml/vx.ml *)
